@@ -533,10 +533,10 @@ func (h *hist) nextTx(t *rapid.T) (txSpec, bool) {
 					id = x.ID
 				}
 			}
-			return txSpec{d.Owner, h.enc(&nfttypes.MsgMintNFT{Id: id, DenomId: d.ID, Name: "n", URI: "u", Data: `{"x":1}`, Sender: h.addr(d.Owner), Recipient: h.addr(h.user(t, "rcpt")), UriHash: "h"})}, true
+			return txSpec{d.Owner, h.enc(&nfttypes.MsgMintNFT{Id: id, DenomId: d.ID, Name: "n", URI: "u", Data: `{"x":1}`, Sender: h.addr(d.Owner), Recipient: spell(t, h.addr(h.user(t, "rcpt"))), UriHash: "h"})}, true
 		case a == 3:
 			x := pick(t, "nft", w.nfts)
-			return txSpec{x.Owner, h.enc(&nfttypes.MsgTransferNFT{Id: x.ID, DenomId: x.Denom, Name: "[do-not-modify]", URI: "[do-not-modify]", Data: "[do-not-modify]", UriHash: "[do-not-modify]", Sender: h.addr(x.Owner), Recipient: h.addr(h.user(t, "rcpt"))})}, true
+			return txSpec{x.Owner, h.enc(&nfttypes.MsgTransferNFT{Id: x.ID, DenomId: x.Denom, Name: "[do-not-modify]", URI: "[do-not-modify]", Data: "[do-not-modify]", UriHash: "[do-not-modify]", Sender: h.addr(x.Owner), Recipient: spell(t, h.addr(h.user(t, "rcpt")))})}, true
 		case a == 4:
 			x := pick(t, "nft", w.nfts)
 			return txSpec{x.Owner, h.enc(&nfttypes.MsgEditNFT{Id: x.ID, DenomId: x.Denom, Name: fmt.Sprintf("n%d", s), URI: "[do-not-modify]", Data: "[do-not-modify]", UriHash: "[do-not-modify]", Sender: h.addr(x.Owner)})}, true
@@ -557,16 +557,16 @@ func (h *hist) nextTx(t *rapid.T) (txSpec, bool) {
 					id = x.ID
 				}
 			}
-			return txSpec{d.Owner, h.enc(&mttypes.MsgMintMT{Id: id, DenomId: d.ID, Amount: uint64(rapid.IntRange(1, 1000).Draw(t, "amt")), Data: []byte("m"), Sender: h.addr(d.Owner), Recipient: h.addr(h.user(t, "rcpt"))})}, true
+			return txSpec{d.Owner, h.enc(&mttypes.MsgMintMT{Id: id, DenomId: d.ID, Amount: uint64(rapid.IntRange(1, 1000).Draw(t, "amt")), Data: []byte("m"), Sender: h.addr(d.Owner), Recipient: spell(t, h.addr(h.user(t, "rcpt")))})}, true
 		case a == 3:
 			x := pick(t, "mt", w.mts)
-			return txSpec{x.Owner, h.enc(&mttypes.MsgTransferMT{Id: x.ID, DenomId: x.Denom, Amount: uint64(rapid.IntRange(1, 3).Draw(t, "amt")), Sender: h.addr(x.Owner), Recipient: h.addr(h.user(t, "rcpt"))})}, true
+			return txSpec{x.Owner, h.enc(&mttypes.MsgTransferMT{Id: x.ID, DenomId: x.Denom, Amount: uint64(rapid.IntRange(1, 3).Draw(t, "amt")), Sender: h.addr(x.Owner), Recipient: spell(t, h.addr(h.user(t, "rcpt")))})}, true
 		case a == 4:
 			x := pick(t, "mt", w.mts)
 			return txSpec{x.Owner, h.enc(&mttypes.MsgBurnMT{Id: x.ID, DenomId: x.Denom, Amount: 1, Sender: h.addr(x.Owner)})}, true
 		default:
 			d := pick(t, "denom", w.mtDenoms)
-			return txSpec{d.Owner, h.enc(&mttypes.MsgTransferDenom{Id: d.ID, Sender: h.addr(d.Owner), Recipient: h.addr(h.user(t, "rcpt"))})}, true
+			return txSpec{d.Owner, h.enc(&mttypes.MsgTransferDenom{Id: d.ID, Sender: h.addr(d.Owner), Recipient: spell(t, h.addr(h.user(t, "rcpt")))})}, true
 		}
 	case "coinswap":
 		pools := k.Coinswap.GetAllPools(ctx)
@@ -737,7 +737,7 @@ func (h *hist) nextTx(t *rapid.T) (txSpec, bool) {
 			lock := uint64(rapid.IntRange(50, 60).Draw(t, "lock"))
 			deputy := h.addr(1)
 			if x == 0 {
-				return txSpec{1, h.enc(&htlctypes.MsgCreateHTLC{Sender: deputy, To: h.addr(h.user(t, "to")), ReceiverOnOtherChain: "r", SenderOnOtherChain: "s",
+				return txSpec{1, h.enc(&htlctypes.MsgCreateHTLC{Sender: deputy, To: spell(t, h.addr(h.user(t, "to"))), ReceiverOnOtherChain: "r", SenderOnOtherChain: "s",
 					Amount: coins(HtltDenom, int64(rapid.IntRange(2, 5000).Draw(t, "amt"))), HashLock: hl, Timestamp: ts, TimeLock: lock, Transfer: true})}, true
 			}
 			if bal := h.n.App.BankKeeper.GetBalance(ctx, h.n.Users[u].Addr, HtltDenom).Amount; bal.GT(sdkmath.NewInt(2)) && u != 1 {
@@ -756,7 +756,7 @@ func (h *hist) nextTx(t *rapid.T) (txSpec, bool) {
 		to := h.user(t, "to")
 		amt := coins(pick(t, "hd", []string{"stake", "btc"}), int64(rapid.IntRange(1, 1000).Draw(t, "amt")))
 		hl := htlctypes.GetHashLock(sec[:], ts)
-		return txSpec{u, h.enc(&htlctypes.MsgCreateHTLC{Sender: me, To: h.addr(to), ReceiverOnOtherChain: "r", SenderOnOtherChain: "s", Amount: amt,
+		return txSpec{u, h.enc(&htlctypes.MsgCreateHTLC{Sender: me, To: spell(t, h.addr(to)), ReceiverOnOtherChain: "r", SenderOnOtherChain: "s", Amount: amt,
 			HashLock: hex.EncodeToString(hl), Timestamp: ts, TimeLock: uint64(rapid.IntRange(50, 60).Draw(t, "lock")), Transfer: false})}, true
 	case "token":
 		switch a := rapid.IntRange(0, 5).Draw(t, "tokop"); {
@@ -1026,7 +1026,7 @@ func (h *hist) nextTx(t *rapid.T) (txSpec, bool) {
 
 func userIndex(n *chain.Node, addr string) int {
 	for i, u := range n.Users {
-		if u.Addr.String() == addr {
+		if strings.EqualFold(u.Addr.String(), addr) { // a bech32 address may be written in upper case
 			return i
 		}
 	}
